@@ -84,7 +84,7 @@ impl Scenario for C14 {
     fn meta(&self) -> Meta {
         Meta {
             level: "exploration",
-            rule: "run = one real node (consensus processor, timer-driven bundling, real mempool) preloaded with 2-5 blocks (one run in five: from block 2 or 3 on only - a node that joined mid-chain and has not loaded the whole ledger; inputs are then drawn from the blocks it holds); 4..40/120 operations from {valid payment (half of them routed to the node with a fee, so that they carry routing work), two-input payment, conflicting spend of a pooled input, two-input transaction whose second input conflicts with a pooled one, duplicate, transaction whose input a held block already spent, staging tick (moves received transactions into the pool without a block), bundling tick, peer block confirming a pooled transaction, peer block spending one of the two inputs of a pooled transaction, peer block conflicting with a pooled transaction, sibling of the tip (never the longest chain) spending a reserved input, invalid peer block, plain peer block, two-block peer fork that reorganises away the last block, a block under the node's own key carrying a good payment and a transaction that re-spends an already spent output (refused; the node hands the transactions of a refused own block back to its pool)}. After every operation: no two pooled transactions share a value-carrying input; every pooled transaction validates against the current ledger; reserved inputs (utxo_map) are exactly the pooled transactions' value-carrying inputs; cached routing work equals the sum over pooled transactions; a bundling tick either produced a block that the node adopted and whose transactions left the pool, or left the pool unchanged; and a fresh valid payment from an unspent output that no pooled transaction spends enters the pool (tried on a scratch basis: the probe transaction is removed again). One run in six is the staking family instead: a producer that starts its own chain from an issuance file with social staking on (stake 5e4/2e6/4e7, period 2-4; real MiningThread; the staking transaction enters every block through the pool) under 4..24/60 operations from {routed payment, payment by the producer's own key, conflicting spend, duplicate, staging tick, bundling tick, Issuance-typed transaction offered to the pool (makes the next bundled block one the node refuses)}; the same oracle after every operation, the probe also on the producer's own outputs. distinct_nontrivial = distinct op-sequence digests with >= 1 pool/ledger conflict event (staking family: or >= 1 refused staked block).",
+            rule: "run = one real node (consensus processor, timer-driven bundling, real mempool) preloaded with 2-5 blocks (one run in five: from block 2 or 3 on only - a node that joined mid-chain and has not loaded the whole ledger; inputs are then drawn from the blocks it holds); 4..40/120 operations from {valid payment (half of them routed to the node with a fee, so that they carry routing work), two-input payment, conflicting spend of a pooled input, two-input transaction whose second input conflicts with a pooled one, duplicate, transaction whose input a held block already spent, staging tick (moves received transactions into the pool without a block), bundling tick, peer block confirming a pooled transaction, peer block spending one of the two inputs of a pooled transaction, peer block conflicting with a pooled transaction, sibling of the tip (never the longest chain) spending a reserved input, invalid peer block, plain peer block, two-block peer fork that reorganises away the last block, a block under the node's own key carrying a good payment and a transaction that re-spends an already spent output (refused; the node hands the transactions of a refused own block back to its pool)}. After every operation: no two pooled transactions share a value-carrying input; every pooled transaction validates against the current ledger; reserved inputs (utxo_map) are exactly the pooled transactions' value-carrying inputs; cached routing work equals the sum over pooled transactions; a bundling tick either produced a block that the node adopted and whose transactions left the pool, or left the pool unchanged; and a fresh valid payment from an unspent output that no pooled transaction spends enters the pool (tried on a scratch basis: the probe transaction is removed again). One run in six is the staking family instead: a producer that starts its own chain from an issuance file with social staking on (stake 5e4/2e6/4e7, period 2-4; real MiningThread; the staking transaction enters every block through the pool) under 4..24/60 operations from {routed payment, payment by the producer's own key, conflicting spend, duplicate, staging tick, bundling tick, Issuance-typed transaction offered to the pool (makes the next bundled block one the node refuses)}; the same oracle after every operation, the probe also on the producer's own outputs; plus: no staking transaction is left in the pool at a quiescent point, and a block that bundle_block returned is refused only when the pool held the Issuance-typed entry or a payment under the producer's own key. distinct_nontrivial = distinct op-sequence digests with >= 1 pool/ledger conflict event (staking family: or >= 1 refused staked block).",
             real: &["Mempool::add_transaction_if_validates/add_transaction/bundle_block/can_bundle_block/delete_transactions", "ConsensusThread::process_event/process_timer_event/bundle_block", "Blockchain::add_blocks_from_mempool/remove_block_transactions/add_block_failure", "Block::create", "staking family: Blockchain genesis from issuance file, Wallet stake selection, MiningThread"],
             stubs: &["no network (blocks and transactions are injected at the consensus processor's channel)", "SimClock", "universe builder for peer blocks"],
             assumptions: &["event-granularity scheduling", "the active probe removes its transaction (and reservation) again"],
@@ -681,6 +681,7 @@ fn staking_family(plan: &Plan) -> RunResult {
         };
         let staged: Vec<Transaction> = sim.nodes[n].consensus.txs_for_mempool.clone();
         let busy: Vec<UtxoKey> = pool_before.iter().chain(staged.iter()).flat_map(in_keys).collect();
+        let created_before = sim.nodes[n].consensus.stats.blocks_created.total;
         let mut bundle_expected = false;
         match op.k.as_str() {
             "tx" | "producer-tx" => {
@@ -760,6 +761,20 @@ fn staking_family(plan: &Plan) -> RunResult {
             if bundle_expected && had_issuance && tip2.1 == tip.1 {
                 refused_seen += 1;
                 r.fault("own_staked_block_refused", 1);
+            }
+            // bundling yields a valid block: a block that bundle_block returned is refused only when the pool held
+            // something hostile (the Issuance-typed entry) or a payment under the producer's own key made behind
+            // the wallet's back (it may take the outputs the wallet then stakes)
+            let created = sim.nodes[n].consensus.stats.blocks_created.total > created_before;
+            let own_key_payment = pool_before.iter().chain(staged.iter()).any(|t| t.transaction_type != TransactionType::Normal || t.from.iter().any(|s| s.public_key == pk.pk));
+            if created && tip2.1 == tip.1 && !had_issuance && !own_key_payment && !staged.iter().any(|t| t.transaction_type == TransactionType::Issuance) {
+                r.violate(format!("C14|bundle|own-block-refused|staking|{}", op.k), format!("staking family, op {} ({}): bundle_block returned a block that the node then refused although the pool held only users' payments", oi, op.k));
+            }
+            // "... or leaves the pool unchanged": the producer's staking transaction lives in the pool only inside
+            // bundle_block (nobody submits one in this family); one that is still pooled at a quiescent point was
+            // left behind by a bundling attempt or by the hand-back of a refused block
+            if pool.iter().any(|t| t.transaction_type == TransactionType::BlockStake) {
+                r.violate(format!("C14|bundle|staking-tx-left-in-pool|{}", op.k), format!("staking family, op {} ({}): the producer's staking transaction is still in the pool after the operation", oi, op.k));
             }
             let mut seen: Vec<UtxoKey> = vec![];
             for t in &pool {
